@@ -597,3 +597,17 @@ package catalog
 //@   unclaimed #requires@tagNames see AddHTTPMethod
 //@   unclaimed #requires@Set see AddHTTPMethod
 //@   unclaimed #requires@String see AddHTTPMethod
+
+// a second Body under one response (C11: second singleton child)
+//@ func (*Catalog).AddResponseBody
+//@   tag C11 C01
+//@   requires c != nil && DirWFv(d) && c.Interactions != nil && RepInvInteractions(c.Interactions) && c.Interactions.mx == 0
+//@   ensures [C11] old(has(c.Interactions.data, box(HTTPInteractionID, httpIdOf(d))) && typeis(c.Interactions.data[box(HTTPInteractionID, httpIdOf(d))], *HTTPInteraction)
+//@            && len(asptr(*HTTPInteraction, ifaceptr(c.Interactions.data[box(HTTPInteractionID, httpIdOf(d))])).Responses) > 0
+//@            && asptr(*HTTPInteraction, ifaceptr(c.Interactions.data[box(HTTPInteractionID, httpIdOf(d))])).Responses[len(asptr(*HTTPInteraction, ifaceptr(c.Interactions.data[box(HTTPInteractionID, httpIdOf(d))])).Responses) - 1].Body != nil)
+//@            ==> ret != nil && unchanged()
+//@   unclaimed #type-assert the values stored under HTTP ids are HTTP interactions (not restated as an invariant of the map)
+//@   unclaimed #nil-deref see above
+//@   unclaimed #requires@NewHTTPResponseBody schema compilation is not under contract
+//@   unclaimed #requires@Update see above
+//@   unclaimed #requires@String see AddHTTPMethod
